@@ -204,11 +204,13 @@ def wild_newton_step(case, out):
     """root-cause probe for ProxNewton buffer mismatches: do the first prox-Newton steps from the start point move
     the coefficients by more than 1e3 x (size of start and final points)?  (saturated GLM: Hessian ~ 0; inside
     the step computation the iterates are larger still, and round-off is relative to *them*)"""
-    if case["solver"]["name"] != "ProxNewton":
+    if case["solver"]["name"] not in ("ProxNewton", "GroupProxNewton"):
         return False
     import json
-    wf = np.abs(np.asarray(out.w, float))
-    ref = 1. + (float(np.max(wf)) if np.all(np.isfinite(wf)) else 0.) + (float(np.max(np.abs(case["init"]["w"]))) if case.get("init") else 0.)
+    ref = 1. + (float(np.max(np.abs(case["init"]["w"]))) if case.get("init") else 0.)
+    if out is not None:     # the judged output is a converged point: intermediate iterates must not dwarf it either
+        wf = np.abs(np.asarray(out.w, float))
+        ref += float(np.max(wf)) if np.all(np.isfinite(wf)) else 0.
     for mi, mp in ((1, 1), (1, 2), (2, 1), (3, 1)):
         c = json.loads(json.dumps(case))
         c["solver"]["max_iter"], c["solver"]["max_pn_iter"] = mi, mp
